@@ -344,7 +344,7 @@ def main(argv):
                 except Exception:
                     pass
                 if crashed is not None:
-                    what = "hangs (no result within the per-case time limit)" if rc == 3 else "crashes the process (panic in a goroutine of the implementation or fatal error)"
+                    what = "hangs (no result within the per-case time limit)" if rc == 3 else "brings the harness process down (panic in the implementation, possibly in one of its own goroutines, or a harness assertion about the implementation failing)"
                     res["crash"] = {"desc": crashed.get("desc"), "case_index": crashed.get("i"), "what": what, "output_tail": out[-3000:]}
                 else:
                     tie_broken = "harness run failed (rc=%d): %s" % (rc, out[-3000:])
